@@ -63,6 +63,7 @@ func (t *Tree) walk(w *World, path []ABlock, depth int, owned bool) {
 		b := b
 		p := append(append([]ABlock{}, path...), b)
 		do := func() {
+			defer mc.Guard()
 			child, err := w.Fork()
 			if err != nil {
 				panic(err)
